@@ -1548,6 +1548,48 @@ pub fn c15(tier: &str, seed: u64) -> Vec<Case> {
         else if areports != want { c = c.fail("reports-merged", format!("tokio flavour: advertised {} ; reported on the channel {}", want, areports)); }
         v.push(c);
     }
+    // what other implementations advertise: the instance is ONE label whatever characters it holds (RFC 6763 4.1.1 allows
+    // dots, spaces, backslashes in it). The name reported for it is the text of that label, character for character, on the
+    // channel and among the known services, in both flavours
+    for (k, label) in ["Front.Desk", "a\\b", "x.y.z", ".lead", "trail.", "dot\\.slash", "two words", "Living Room (2)", "a..b", "\\", ".", "plain"].iter().enumerate() {
+        let full = mk_name(&[label.as_bytes().to_vec(), b"_verif".to_vec(), b"_tcp".to_vec(), b"local".to_vec()]);
+        let mut p = Packet::new_reply(0);
+        p.answers.push(ResourceRecord::new(service.clone(), CLASS::IN, 120, RData::PTR(PTR(full.clone()))));
+        p.answers.push(ResourceRecord::new(full.clone(), CLASS::IN, 120, RData::SRV(simple_dns::rdata::SRV { priority: 0, weight: 0, port: 8000 + k as u16, target: full.clone() })));
+        p.answers.push(ResourceRecord::new(full.clone(), CLASS::IN, 120, RData::TXT(simple_dns::rdata::TXT::new().with_string("id=1").unwrap())));
+        p.additional_records.push(ResourceRecord::new(full.clone(), CLASS::IN, 120, RData::A(A { address: 0x0A000020 + k as u32 })));
+        let wire = if k % 2 == 0 { p.build_bytes_vec_compressed().unwrap() } else { crate::refenc::encode_packet(&text::packet(&p), crate::refenc::Compress::Random(&mut r2enc, 6), false, None).0 };
+        let mut c = Case::oracle_only().tag("foreign-instance-label");
+        let parsed = match Packet::parse(&wire) { Ok(x) => x, Err(_) => { v.push(c.fail("discovery-differs", format!("an announcement of the instance label {:?} is rejected", label))); continue; } };
+        let (tx, rx) = std::sync::mpsc::channel::<InstanceInformation>();
+        let mut st: ResourceRecordManager<'static> = ResourceRecordManager::new();
+        st.add_authoritative_resource(ResourceRecord::new(service.clone(), CLASS::IN, 0, RData::PTR(PTR(own.clone()))));
+        let mut ch = Some(tx);
+        sync_add_response_to_resources(parsed, &service, &own, &mut st, &mut ch);
+        drop(ch);
+        let reported: Vec<String> = rx.iter().map(|i| i.escaped_instance_name()).collect();
+        let known: Vec<String> = st.get_domain_resources(&service, DomainResourceFilter::cached()).filter_map(|rs| instance_from_records(&service, rs)).map(|i| i.escaped_instance_name()).collect();
+        let (wire_c, service_c, own_c) = (wire.clone(), service.clone(), own.clone());
+        let areported: Vec<String> = {
+            let rt = tokio::runtime::Builder::new_current_thread().build().unwrap();
+            rt.block_on(async move {
+                let (tx, mut rx) = tokio::sync::mpsc::channel::<InstanceInformation>(8);
+                let mut st3: ResourceRecordManager<'static> = ResourceRecordManager::new();
+                let mut ch = Some(tx);
+                simple_mdns::verif::async_add_response_to_resources(Packet::parse(&wire_c).unwrap(), &service_c, &own_c, &mut st3, &mut ch).await;
+                drop(ch);
+                let mut got = vec![];
+                while let Some(i) = rx.recv().await { got.push(i.escaped_instance_name()); }
+                got
+            })
+        };
+        // (the name an `InstanceInformation` holds is observable through its escaped form, which determines it)
+        let want = vec![InstanceInformation::new(label.to_string()).escaped_instance_name()];
+        if reported != want { c = c.fail("discovery-differs", format!("a peer advertises the one-label instance {:?}; reported on the channel as {:?}", label, reported)); }
+        else if known != want { c = c.fail("discovery-differs", format!("a peer advertises the one-label instance {:?}; known as {:?}", label, known)); }
+        else if areported != want { c = c.fail("discovery-differs", format!("a peer advertises the one-label instance {:?}; the tokio flavour reports {:?}", label, areported)); }
+        v.push(c);
+    }
     v.push(live_with_baseline("sync discovery pair", &live_pair));
     v.push(live_with_baseline("tokio discovery pair", &|| match std::panic::catch_unwind(|| { let rt = tokio::runtime::Builder::new_current_thread().enable_all().build().unwrap(); rt.block_on(live_pair_tokio()) }) {
         Ok(c) => c,
